@@ -43,6 +43,8 @@ KINDS = [
     ('float_keys', ['dict', 'float', 'str'], ['factory', 'dict'], {1: 'a', 2.5: 'b', 4: 'c'}, None, [1], {}),
     # a default the user wrote in unconverted form; the 'good' argument is that very object (1 is interned)
     ('def_raw_int', 'float', ['value', '1'], 1, None, 'x', {}),
+    # a default that is an unusual object in its own right (Ellipsis): a default like any other, not "no default"
+    ('def_ellipsis', 'any', ['value', '...'], 5, None, None, {}),
 ]
 NAMES = ['a', 'b', 'c']
 HOOKS = [None, 'count', 'raise', 'assign']
